@@ -10,6 +10,18 @@ NOTE = ("Trusted base: go/types (type checking and constant evaluation), golang.
         "The check decides the named structural clauses only; the value-level remainder listed in the evidence under not_covered is not claimed.")
 
 CLAIMED = {
+ "C09": dict(level="other",
+   technique="static analysis: dominance and path counting on the SSA of BatchExecutor.handleRequest/executeItem and the error mappers (validation-dominates-execution, one store per response slot per loop path, echo dataflow, stop-flag phi analysis)",
+   text="Decides the batch semantics structurally for every batch: the only call of the item executor is dominated by the passing edges of the version, Undo and batch-count checks, each failing edge returning an error that becomes a single failed item; the response slice is sized by and indexed over the request's items with exactly one store per slot on every loop path and no append; stored items echo Operation and UniqueBatchItemID from req.BatchItem[i]; one executor call per iteration and at most one handler invocation per execution; the stop flag becomes true only under (OperationFailed and Stop), is never reset, gates execution, and skipped items are reported failed; every non-nil error is mapped to OperationFailed. Comparison with an executable reference model over all batches is not performed.",
+   ref="§4 C09"),
+ "C15": dict(level="other",
+   technique="static analysis: ownership/escape analysis of the per-request holder (allowed-use table over every use of *batchData), who-may-access rule on the placeholder field, attach-before-first-stage dominance",
+   text="A non-interference argument for repository code: each request allocates a fresh holder with an empty placeholder and enters the middleware/handler chain with the context carrying it; every one of the uses of *batchData in the package is an allocation, the value of context.WithValue, the comma-ok read back from the context, a field access or a nil test — it is never stored, sent, captured by a goroutine or returned, the key type is constructed only in context.go and no package-level variable holds request state; the placeholder field is touched only by its three accessors, a failed item clears it on every error path, and no goroutine is spawned between HandleRequest and the handlers. User handlers that leak their own context are outside.",
+   ref="§4 C15"),
+ "C20": dict(level="other",
+   technique="static analysis: effect analysis — inventory of every package-level variable of the codec packages with all its writers, who-may-call on Register*, reachability of global writes from the encode/decode entry points, capture analysis of the cached plan closures, per-call coder construction and Clear completeness",
+   text="A non-interference argument for every schedule and history: each of the package-level variables of ttlv, kmip and payloads is written only by init/Register* functions (or is one of the two sync.Map plan caches used only through Load/Store), Register* is called only from init, none of the functions reachable from an encode or decode entry point writes shared state other than the two cache stores, the cached per-type plan closures capture no coder, version state, writer or reader and never store to a captured variable, coders and their version state are created per call, and Clear resets the version and every writer field encoding modifies while the binary buffer only grows by appending. With no shared written location there is neither a data race nor a dependence on call history. Byte-equality across processes is implied, not measured.",
+   ref="§4 C20"),
  "C14": dict(level="other",
    technique="static analysis: nil-dominance dataflow over every dereference of an optional pointer in the object accessors; path-wise extraction and three-way comparison of the key-format tables (decoder destination, accessor source, builder field); recognition of the 1.3 version switch and of the curve tables",
    text="Decides clause (b) for repository code and the table-agreement part of clause (a): in every accessor each dereference of a pointer loaded from an optional part of a decoded object is dominated by a nil test on the same access path (four nil dereferences on metadata-only or empty key blocks were repaired and are guarded); for each of the 13 key formats the KeyMaterial field the decoder fills is the one each accessor reads and the one each register builder populates with that format constant, on every path of the builders; the builders switch to the unified EC representation exactly at CompareVersions(version, V1_3) >= 0; builder and accessor curve tables are inverse with the right bit lengths. Mathematical equality of the extracted key (big-integer bytes, DER, curve arithmetic) is value-level and not decided; the planned stdlib-hand-over obligation was dropped as a false alarm (crypto/rsa tolerates nil primes).",
